@@ -104,6 +104,7 @@ func alphabet() []record {
 		{tag: "dup-of-file-denied", aa: true, fields: file("DENIED", "open", "foo", "/srv/data/a", "r")},
 		{tag: "near-dup-of-file-denied", aa: true, fields: file("DENIED", "open", "foo", "/srv/data/a", "w")},
 		{tag: "noise", aa: true, noise: true, fields: file("DENIED", "open", "foo", "/dev/null", "w")},
+		{tag: "truncated-apparmor", aa: true, noise: true, raw: `apparmor="DENIED" operation="open" class="file" profile="foo" name="/srv/data/tr`},
 		{tag: "extra-keys", aa: true, fields: file("DENIED", "open", "bar", "/srv/data/x", "r", kv{"zeta", "1", true}, kv{"alpha", "two", false}, kv{"mid", "3", true})},
 	}
 }
@@ -227,13 +228,23 @@ func c14(minLen, maxLen, shard, of int) int {
 				text := strings.Join(lines, "\n") + "\n"
 				for _, flt := range filters {
 					n++
-					// reference reader
-					want := []map[string]string{}
-					optional := []map[string]string{}
+					// reference reader: expected events in input order; records whose reporting the property leaves open
+					// (noise paths, a truncated record) are optional slots
+					type slot struct {
+						ev  map[string]string
+						opt bool
+					}
+					exp := []slot{}
 					seen := map[string]bool{}
 					for _, s := range seq {
 						r := A[s]
 						if !r.aa {
+							continue
+						}
+						if r.raw != "" { // truncated record: matches the selection, content undefined
+							if flt == "" || strings.HasPrefix("foo", flt) {
+								exp = append(exp, slot{nil, true})
+							}
 							continue
 						}
 						ev := r.event()
@@ -247,18 +258,14 @@ func c14(minLen, maxLen, shard, of int) int {
 							continue
 						}
 						seen[r.key()] = true
-						if r.noise {
-							optional = append(optional, ev)
-							continue
-						}
-						want = append(want, ev)
+						exp = append(exp, slot{ev, r.noise})
 					}
 					got, perr := read(text, carrier, flt)
 					where := "carrier=" + carrierName(carrier)
 					in := append([]string{"filter=" + flt + " " + where}, tags...)
 					hasGarbled, hasLong := false, false
 					for _, t := range tags {
-						hasGarbled = hasGarbled || t == "garbled"
+						hasGarbled = hasGarbled || t == "garbled" || t == "truncated-apparmor"
 						hasLong = hasLong || strings.HasPrefix(t, "long-")
 					}
 					if perr != "" {
@@ -271,46 +278,52 @@ func c14(minLen, maxLen, shard, of int) int {
 						report("reader-fails "+where+" cause="+cause, "the reader stops with "+perr, in...)
 						return
 					}
-					// drop optional (noise) events from got
-					filtered := []map[string]string{}
-					for _, g := range got {
-						isOpt := false
-						for _, o := range optional {
-							if g["name"] == o["name"] {
-								isOpt = true
+					same := func(g, w map[string]string) bool {
+						for k, v := range w {
+							if g[k] != v {
+								return false
 							}
 						}
-						if !isOpt {
-							filtered = append(filtered, g)
+						for k := range g {
+							if _, ok := w[k]; !ok && !trailer[k] {
+								return false
+							}
 						}
+						return true
 					}
-					if len(filtered) != len(want) {
+					var match func(i, j int) bool
+					match = func(i, j int) bool {
+						if j == len(exp) {
+							return i == len(got)
+						}
+						if exp[j].opt {
+							if match(i, j+1) {
+								return true
+							}
+							return i < len(got) && (exp[j].ev == nil || same(got[i], exp[j].ev)) && match(i+1, j+1)
+						}
+						return i < len(got) && same(got[i], exp[j].ev) && match(i+1, j+1)
+					}
+					if !match(0, 0) {
 						cause := "other"
 						switch {
 						case hasLong:
 							cause = "very-long-line"
 						case hasGarbled:
-							cause = "garbled-line"
+							cause = "after-garbled-or-truncated-record"
 						}
-						report(fmt.Sprintf("event-count %s cause=%s", where, cause), fmt.Sprintf("%d events reported, %d expected", len(filtered), len(want)), in...)
+						must := 0
+						for _, e := range exp {
+							if !e.opt {
+								must++
+							}
+						}
+						detail := fmt.Sprintf("%d events reported, %d expected (+%d optional)", len(got), must, len(exp)-must)
+						if len(got) >= must {
+							detail += "; reported events do not match the records, e.g. " + fmt.Sprint(got[len(got)-1])
+						}
+						report("events-differ "+where+" cause="+cause, detail, in...)
 						return
-					}
-					for i := range want {
-						for k, v := range want[i] {
-							if filtered[i][k] != v {
-								report("event-differs "+where+" key="+k, fmt.Sprintf("event %d: %s=%q, the record says %q", i, k, filtered[i][k], v), in...)
-								return
-							}
-						}
-						for k := range filtered[i] {
-							if trailer[k] {
-								continue
-							}
-							if _, ok := want[i][k]; !ok {
-								report("event-extra-key "+where+" key="+k, fmt.Sprintf("event %d carries %s=%q, which is not in the record", i, k, filtered[i][k]), in...)
-								return
-							}
-						}
 					}
 					// same output on every run: render under every iteration start of the per-event map
 					if len(got) > 0 && flt == "" {
